@@ -1,5 +1,6 @@
 import EaselModel.Containers.KeyhashLemmas
 import EaselModel.Containers.KeyhashBounds
+import EaselModel.Containers.KeyhashInt32
 import EaselModel.Containers.KeyhashApiLemmas
 import EaselModel.Containers.KeyhashFixedLemmas
 import EaselModel.Containers.HeapLemmas
@@ -357,6 +358,63 @@ example : Heap.Inv (create true) := inv_create true
 example : (insertAll (create false) [5, 3, 8, 1, 9, 2, 3]).bind (fun h => drain h.data.size h) = some [1, 2, 3, 3, 5, 8, 9] := by
   decide +kernel
 end HeapS
+
+
+/-! ### at the bound: the `int` / `uint32_t` arithmetic of `esl_keyhash_Store` and `key_upsize` as C computes it
+
+`keyhash_fields_in_range` excludes overflow BELOW `2^30 - 1` keys / arena bytes. Here the growth code is modelled in the C
+types (`Keyhash.growC`, `doubleC`: `int`; `upsize_*`: `uint32_t`), for both variants of the code: `g = false` is the doubling
+as written (`kh->salloc *= 2`), `g = true` the one guarded by `if (kh->salloc > INT_MAX/2) ESL_XEXCEPTION(eslEMEM, …)`. -/
+section KeyhashAtBound
+open Keyhash
+
+/-- the arena growth loop, every start value `0 < salloc ≤ INT_MAX` and every need: EITHER a doubling `salloc·2^k ≤ INT_MAX`
+    covers the need — then the loop ends at the least such doubling, no overflow, exactly where the `Nat` model ends — OR the loop
+    reaches the last representable doubling (still `< need`) and executes `salloc *= 2` there: signed `int` overflow in the code
+    as written (undefined behaviour; NOT the documented `eslEMEM`), `eslEMEM` with `salloc` unchanged in the guarded code -/
+theorem keyhash_at_bound (g : Bool) (need s : Nat) (h0 : 0 < s) (h1 : s ≤ INT_MAX) :
+    (∃ k, growC g need 32 s = .ok (s * 2 ^ k) ∧ growTo need 32 s = some (s * 2 ^ k) ∧ need ≤ s * 2 ^ k ∧ s * 2 ^ k ≤ INT_MAX ∧
+      ∀ j, j < k → s * 2 ^ j < need) ∨
+    (∃ k, growC g need 32 s = (if g then .emem (s * 2 ^ k) else .overflow (s * 2 ^ k)) ∧ s * 2 ^ k < need ∧
+      s * 2 ^ k ≤ INT_MAX ∧ INT_MAX < s * 2 ^ (k + 1)) := by
+  have hbig : INT_MAX < s * 2 ^ 32 := by
+    have : 2 ^ 32 ≤ s * 2 ^ 32 := Nat.le_mul_of_pos_left _ h0
+    simp only [INT_MAX]; omega
+  rcases growC_char g need 32 s h0 h1 hbig with ⟨k, e1, e2, e3, e4⟩ | h
+  · exact Or.inl ⟨k, e1, growC_ok_model g need 32 s _ e1, e2, e3, e4⟩
+  · exact Or.inr h
+
+/-- no overflow and no throw whenever some representable doubling covers the need (for the default table, `salloc` =
+    2048·2^k: whenever the arena needs at most `2^30` bytes) -/
+theorem keyhash_below_bound (g : Bool) (need s : Nat) (h0 : 0 < s) (h1 : s ≤ INT_MAX)
+    (hfit : ∃ k, need ≤ s * 2 ^ k ∧ s * 2 ^ k ≤ INT_MAX) :
+    ∃ r, growC g need 32 s = .ok r ∧ growTo need 32 s = some r ∧ need ≤ r ∧ r ≤ INT_MAX := growC_ok_of_fits g need s h0 h1 hfit
+
+/-- THE DEFECT AT THE BOUND (genuine, reachable with ~3 GiB: repro /var/tmp/fixes-proposed/C19-keyhash-salloc-overflow.*):
+    the default table (`salloc` 2048) asked for one byte more than `2^30` arena bytes doubles 19 times and then executes
+    `kh->salloc *= 2` with `salloc = 2^30` — signed overflow; the guarded code throws `eslEMEM` there -/
+theorem keyhash_at_bound_default :
+    growC false (2 ^ 30 + 1) 32 2048 = .overflow (2 ^ 30) ∧ growC true (2 ^ 30 + 1) 32 2048 = .emem (2 ^ 30) ∧
+    growC false (2 ^ 30) 32 2048 = .ok (2 ^ 30) ∧ growC true (2 ^ 30) 32 2048 = .ok (2 ^ 30) := by decide
+
+/-- the index arrays (`kalloc *= 2` when `nkeys == kalloc`): exact up to `kalloc = 2^30 - 1`; from `2^30` on signed overflow
+    as written / `eslEMEM` guarded (needs 2^30 keys, i.e. ≥ 9 GiB: out of reach of the differential run, stated only) -/
+theorem keyhash_kalloc_at_bound (g : Bool) (kalloc : Nat) :
+    (kalloc * 2 ≤ INT_MAX → doubleC g kalloc = .ok (kalloc * 2)) ∧
+    (INT_MAX < kalloc * 2 → doubleC g kalloc = if g then .emem kalloc else .overflow kalloc) := doubleC_char g kalloc
+
+/-- `uint32_t` side: below the growth stop `3*hashsize` and `hashsize << 3` do not wrap (the `Nat` model's test and new size
+    are the C ones; the new size stays `< 2^31`, so the `int` loop counter of `key_upsize` reaches it); at `hashsize ≥ 2^28`
+    `key_upsize` returns `eslOK` without growing ("quasi-success"), so a wrapped comparison there changes nothing: the table
+    keeps working with longer chains, which `keyhash_refines` covers (it holds for ANY table size) -/
+theorem keyhash_hashsize_at_bound (h : UInt32) (hh : h.toNat < 2 ^ 28) (H : Key → Nat → Nat) (kh : KH) :
+    (3 * h).toNat = 3 * h.toNat ∧ (h <<< 3).toNat = 8 * h.toNat ∧ 8 * h.toNat < 2 ^ 31 ∧
+    (2 ^ 28 ≤ kh.hashsize → upsize H kh = some kh) :=
+  ⟨upsize_trigger_exact h hh, (upsize_shift_exact h hh).1, (upsize_shift_exact h hh).2, upsize_stops H kh⟩
+
+-- non-vacuity of `keyhash_below_bound`'s hypothesis: need 5000 from 2048 is covered by 2048·2^2
+example : ∃ k, 5000 ≤ 2048 * 2 ^ k ∧ 2048 * 2 ^ k ≤ INT_MAX := ⟨2, by decide, by decide⟩
+end KeyhashAtBound
 
 /-! ## Red-black tree (insertion with recolouring and the four rotations as coded; keys: any integers) -/
 section RB
